@@ -64,6 +64,14 @@ theorem C08_entries_valid (file : Bytes) (R M nt : Nat) :
   have := blockOut_valid file R M b e hbe
   exact ⟨validAt_some this.1, this.2.2⟩
 
+/-- The entries are in strictly increasing file order and do not overlap (so the ordinal of an entry
+is its position in the list, and no message is listed twice). -/
+theorem C08_entries_ordered (file : Bytes) (R M nt : Nat) (hR : 0 < R) (hRe : R % 2 = 0) (hM : 24 ≤ M)
+    (hnt : 0 < nt) (hsz : ∀ p n, cfgFile.stepFile (file.drop p) = .emit n → n ≤ M) :
+    ((index file R M nt).map (fun e => (e.off, e.size))).Pairwise fun a b => a.1 + a.2 ≤ b.1 := by
+  rw [C08_index_eq_scan file R M nt hR hRe hM hnt hsz]
+  exact Cfg.runFile_pairwise file 0
+
 -- executable sanity check (a test): two messages, a block boundary inside the first, 3 workers
 #guard (index ([0x2E, 0x31, 0, 0, 0xF7, 0x1F, 0xA4, 0xC3, 2, 0, 0x10, 0x27, 0, 0, 0, 0, 0, 0, 0, 0, 0, 0, 0, 0] ++ [7] ++
     [0x2E, 0x31, 0, 0, 0xF7, 0x1F, 0xA4, 0xC3, 2, 0, 0x10, 0x27, 0, 0, 0, 0, 0, 0, 0, 0, 0, 0, 0, 0]) 16 24 3).map
